@@ -734,10 +734,19 @@ class _GenerateRenderMethod:
 
         self.printer.writeline("def %s(%s):" % (name, ",".join(args)))
 
-        # form "arg1, arg2, arg3=arg3, arg4=arg4", etc.
-        pass_args = [
-            "%s=%s" % ((a.split("=")[0],) * 2) if "=" in a else a for a in args
-        ]
+        # form "arg1, arg2, *args, arg3=arg3, **kw", etc.:
+        # positional parameters are passed on by position (one with a
+        # default may be followed by *args), keyword-only ones by name
+        pass_args = []
+        keyword_only = False
+        for a in args:
+            if a.startswith("*"):
+                pass_args.append(a)
+                keyword_only = not a.startswith("**")
+            elif keyword_only:
+                pass_args.append("%s=%s" % ((a.split("=")[0],) * 2))
+            else:
+                pass_args.append(a.split("=")[0])
 
         self.write_variable_declares(
             identifiers,
